@@ -55,6 +55,12 @@ def run(prop, tier, replay):
                 print("VIOLATION property=%s replay=%s" % (prop, replay))
                 return 1
             return 0
+        spsa_bin = None
+        if prop == "C06" and tier == "thorough":
+            # the spsa build: tunable search parameters become variables; they are set to random in-range values
+            spsa_bin = vf.build_harness(os.path.join(work), ["rec-search"], tags="verif spsa")["rec-search"] + "-spsa"
+            os.rename(os.path.join(work, "rec-search"), spsa_bin)
+            bins = vf.build_harness(work, ["rec-search"])
         dm = design_model(work, tier)
         vf.log("Search.tla model checked: %d distinct states %.1fs" % (dm.distinct, time.time() - t0))
         groups = {}
@@ -67,6 +73,14 @@ def run(prop, tier, replay):
                 def record(path, args=args):
                     vf.run([bins["rec-search"]] + args + ["-corpus", CORPUS, "-out", path], timeout=3000)
                 groups.setdefault(module, []).append(dict(name="%s-%s-%d" % (prop, mode, i), record=record, args=args, module=module))
+        if spsa_bin:
+            for i in range(4):
+                k += 1
+                args = ["-mode", "sweep", "-n", "12000", "-seed", str(vf.seed() * 104729 + k), "-k", "300"]
+
+                def record_spsa(path, args=args):
+                    vf.run([spsa_bin] + args + ["-corpus", CORPUS, "-out", path], timeout=3000)
+                groups.setdefault("SearchTrace", []).append(dict(name="C06-spsa-%d" % i, record=record_spsa, args=args, module="SearchTrace"))
         # run all shards of all modules together
         results = {}
         all_jobs = [(m, j) for m, js in groups.items() for j in js]
